@@ -15,7 +15,7 @@ import os
 import random
 import sys
 
-from common import Report, Violation, parallel_map, h, run_sentinels
+from common import Report, Violation, parallel_map, h, run_sentinels, panic_site
 from schedlib import run_scenario, stmt_rows, trace_spec, interleaving_signature
 from sqlcase import ms
 
@@ -194,7 +194,7 @@ def judge(sc, pre, specs, out):
     if out.get("error"):
         return [("database-open-failed", out["error"])], info
     for p in out.get("panics", []):
-        v.append(("panic:" + p.split("|")[0].replace("/repo/", ""), p[:200]))
+        v.append(("panic:" + panic_site(p), p[:200]))
     sessions = []
     for si, spec in enumerate(specs):
         res = out["actors"][si]
